@@ -286,7 +286,7 @@ func runClientCase(w *world, tr *sim.Trace, seg int, c clientCase) error {
 	tr.Emit(sim.M{"seg": seg, "e": "ClientStart", "want": want, "kind": c.Kind, "classes": c.Classes, "perm": c.Perm,
 		"chain": c.Chain, "idx": c.Idx})
 
-	ctx, cancel := context.WithTimeout(context.Background(), 30*time.Second)
+	ctx, cancel := context.WithTimeout(context.Background(), 120*time.Second)
 	defer cancel()
 	resCh := make(chan sim.M, 1)
 	go func() {
@@ -418,7 +418,7 @@ func runClientCase(w *world, tr *sim.Trace, seg int, c clientCase) error {
 			lastProgress = time.Now()
 			continue
 		}
-		if time.Since(lastProgress) > 15*time.Second {
+		if time.Since(lastProgress) > 60*time.Second {
 			return fmt.Errorf("client case %d: no progress (outstanding %d, answered %d)", c.Idx, len(outstanding), len(answered))
 		}
 		select {
@@ -427,6 +427,11 @@ func runClientCase(w *world, tr *sim.Trace, seg int, c clientCase) error {
 		case result = <-resCh:
 		case <-time.After(200 * time.Microsecond):
 		}
+	}
+	if ctx.Err() != nil {
+		// the case outlived its generous deadline (overloaded machine): what the caller got is not judged
+		tr.Emit(sim.M{"seg": seg, "e": "Note", "kind": "deadline"})
+		return fmt.Errorf("client case %d: deadline exceeded", c.Idx)
 	}
 	ev := sim.M{"seg": seg, "e": "ClientResult", "err": ""}
 	if e, ok := result["err"]; ok {
